@@ -13,24 +13,30 @@ namespace Tempren
 namespace C04
 
 /-- a dry-run renamer call never touches the file system it reads -/
-theorem dry_call_base (s : DryState) (cwd : APath) (src dst : PurePath) (ov : Bool) :
-    (dryRunRenamer s cwd src dst ov).1.base = s.base := by
-  unfold dryRunRenamer
+theorem dry_call_base (sameDir : Bool) (s : DryState) (cwd : APath) (src dst : PurePath) (ov : Bool) :
+    (dryRunRenamerWith sameDir s cwd src dst ov).1.base = s.base := by
+  unfold dryRunRenamerWith
   simp only
   split
   · rfl
-  · split <;> rfl
+  · split
+    · rfl
+    · split <;> rfl
 
 /-- **the whole run**: whatever the options, the tree after a dry run is the tree before it -/
-theorem dry_run_changes_nothing (fs : FS) (files : List FileRec) (gen : Nat → Gen) (strategy : Strategy)
-    (answers : List Answer) :
-    (execute dryRenamer { base := fs } files gen strategy answers).1.st.base = fs := by
-  apply execute_preserves_all dryRenamer (fun r => r.st.base = fs)
-  · intro r dir src dst ov h
-    rw [(call_calls dryRenamer r dir src dst ov).2]
-    show (dryRunRenamer r.st dir src dst ov).1.base = fs
-    rw [dry_call_base, h]
-  · rfl
+theorem dry_run_changes_nothing (pathMode : Bool) (fs : FS) (files : List FileRec) (gen : Nat → Gen)
+    (strategy : Strategy) (answers : List Answer) :
+    (execute (if pathMode then dryPathRenamer else dryRenamer) { base := fs } files gen strategy answers).1.st.base = fs := by
+  have key : ∀ (R : Renamer DryState), (∀ s dir src dst ov, (R.call s dir src dst ov).1.base = s.base) →
+      (execute R { base := fs } files gen strategy answers).1.st.base = fs := by
+    intro R hR
+    apply execute_preserves_all R (fun r => r.st.base = fs)
+    · intro r dir src dst ov h
+      rw [(call_calls R r dir src dst ov).2, hR, h]
+    · rfl
+  cases pathMode
+  · exact key dryRenamer (fun s dir src dst ov => dry_call_base true s dir src dst ov)
+  · exact key dryPathRenamer (fun s dir src dst ov => dry_call_base false s dir src dst ov)
 
 /-- which renamer `build_pipeline` installs -/
 inductive RenamerChoice where | dry | name | path
